@@ -50,13 +50,14 @@ const (
 	aTransferLagging
 	aDoubleVoteDance
 	aTransferToRemoved
+	aWitnessStaleMatch
 	numActionKinds
 )
 
 var actionNames = [...]string{"tick", "tickAll", "step", "deliver", "deliverTo", "drop", "dup", "propose", "read",
 	"confChange", "apply", "snapshot", "crash", "restart", "stepCrash", "partition", "heal", "transfer", "status",
 	"rounds", "startJoin", "timeoutOff", "isolate",
-	"splitLeader", "healOne", "elect", "lagSnapshot", "joinFlow", "staleLeaderDance", "transferLagging", "doubleVoteDance", "transferToRemoved"}
+	"splitLeader", "healOne", "elect", "lagSnapshot", "joinFlow", "staleLeaderDance", "transferLagging", "doubleVoteDance", "transferToRemoved", "witnessStaleMatch"}
 
 type simAction struct {
 	Kind int
@@ -102,6 +103,7 @@ type profile struct {
 	fair     bool // append the fair phase and require progress
 	lin      bool // check linearizability of the client history
 	spareBias []int
+	voterBias []int
 }
 
 func baseWeights() map[int]int {
@@ -109,7 +111,7 @@ func baseWeights() map[int]int {
 		aTick: 6, aTickAll: 6, aStep: 10, aDeliver: 14, aDeliverTo: 6, aDrop: 3, aDup: 2, aPropose: 6, aRead: 3,
 		aConfChange: 2, aApply: 6, aSnapshot: 2, aCrash: 2, aRestart: 3, aStepCrash: 2, aPartition: 1, aHeal: 1,
 		aTransfer: 1, aStatus: 2, aRounds: 8, aStartJoin: 2, aTimeoutOff: 1, aIsolate: 1,
-		aSplitLeader: 3, aHealOne: 2, aElect: 2, aLagSnapshot: 1, aJoinFlow: 1, aStaleLeaderDance: 1, aTransferLagging: 1, aDoubleVoteDance: 1, aTransferToRemoved: 1,
+		aSplitLeader: 3, aHealOne: 2, aElect: 2, aLagSnapshot: 1, aJoinFlow: 1, aStaleLeaderDance: 1, aTransferLagging: 1, aDoubleVoteDance: 1, aTransferToRemoved: 1, aWitnessStaleMatch: 1,
 	}
 }
 
@@ -125,7 +127,7 @@ var famC02 = []string{"committed-entry-differs", "applied-state-differs", "appli
 	"apply-term-regression", "apply-uncommitted", "apply-before-persist", "fast-apply-of-unsaved",
 	"committed-entry-overwritten", "committed-entry-replaced", "log-matching-violated", "commit-regressed",
 	"persist-gap", "final-divergence", "out-of-date-snapshot-pushed", "recover-older-snapshot", "compact-failed",
-	"snapshot-content-missing"}
+	"snapshot-content-missing", "sent-message-mutated"}
 var famC03 = []string{"campaign-with-unapplied-config-change", "two-leaders-one-term", "two-votes-one-term", "leader-misses-committed-entry", "vote-not-durable", "term-regressed"}
 var famC04 = []string{"vote-not-durable", "ack-not-durable", "term-not-durable", "recovered-term-lower", "recovered-vote-differs",
 	"acked-entry-lost", "persist-gap", "apply-before-persist", "fast-apply-of-unsaved"}
@@ -201,6 +203,9 @@ func getProfile(name string) profile {
 		w[aStartJoin] = 5
 		w[aSnapshot] = 3
 		w[aTransferToRemoved] = 3
+		w[aWitnessStaleMatch] = 4
+		w[aJoinFlow] = 4
+		p.voterBias = []int{3, 4, 4, 4, 5, 3, 4, 2}
 	case "C17":
 		p.allowDup = true
 		p.family = union(famC17)
@@ -229,6 +234,9 @@ func genShape(t *rapid.T, p profile) simShape {
 		Ordered:     rapid.Bool().Draw(t, "ordered"),
 		ElectionRTT: []int{3, 4, 5, 6}[vfhelp.Pick(t, "ert", 2)],
 		Warm:        vfhelp.Pick(t, "warm", 2) > 0,
+	}
+	if len(p.voterBias) > 0 {
+		sh.Voters = p.voterBias[vfhelp.PickN(t, "votersb", len(p.voterBias))]
 	}
 	sh.TinyMsg = rapid.Bool().Draw(t, "tinymsg")
 	sh.TinyInMem = rapid.Bool().Draw(t, "tinyinmem")
@@ -328,6 +336,7 @@ func (s *sim) deliverBetween(x, y uint64) {
 	}
 	s.net = rest
 	for _, m := range mine {
+		s.checkNotMutated(m)
 		s.deliverMsg(m.m)
 	}
 }
@@ -513,6 +522,7 @@ func (s *sim) doAction(a simAction) {
 		}
 		s.net = rest
 		for _, m := range mine {
+			s.checkNotMutated(m)
 			s.deliverMsg(m.m)
 		}
 	case aDrop:
@@ -763,6 +773,111 @@ func (s *sim) doAction(a simAction) {
 			s.round(a.C%2 == 0)
 		}
 		f.holdApply = false
+	case aWitnessStaleMatch:
+		// a leader replicates entries to a witness only, is deposed, converges with the
+		// others, is elected again and must not count what the witness acknowledged in
+		// the earlier term
+		l := s.leader()
+		if l == nil {
+			break
+		}
+		var w *simReplica
+		var others []*simReplica
+		for _, r := range s.runningReps() {
+			if r.id == l.id {
+				continue
+			}
+			if _, ok := l.mem.Witnesses[r.id]; ok && r.kind == kWitness {
+				if w == nil {
+					w = r
+				}
+				continue
+			}
+			if _, ok := l.mem.Addresses[r.id]; ok && r.kind == kVoter {
+				others = append(others, r)
+			}
+		}
+		if w == nil || len(others) < 2 {
+			break
+		}
+		s.flag("witness-stale-match-dance")
+		cutOff := func(xs ...*simReplica) {
+			in := map[uint64]bool{}
+			for _, x := range xs {
+				in[x.id] = true
+			}
+			s.blocked = map[[2]uint64]bool{}
+			for _, x := range xs {
+				for _, id := range s.ids {
+					if !in[id] {
+						s.blocked[[2]uint64{id, x.id}] = true
+						s.blocked[[2]uint64{x.id, id}] = true
+					}
+				}
+			}
+		}
+		// phase 1: {l, w} alone; entries reach the witness only
+		cutOff(l, w)
+		for i := 0; i < 4+a.A%3; i++ {
+			s.propose(l, "wsm", 1)
+		}
+		for i := 0; i < 3; i++ {
+			s.step(l, 0)
+			s.deliverBetween(l.id, w.id)
+			s.step(w, 0)
+			s.deliverBetween(l.id, w.id)
+		}
+		s.step(l, 0)
+		// phase 2: the rest elects a leader and commits something else
+		o := others[a.B%len(others)]
+		for i := 0; i < int(s.opts.electionRTT)+1; i++ {
+			for _, x := range others {
+				if x.running() && x.id != o.id {
+					s.tick(x)
+				}
+			}
+		}
+		s.campaignNow(o, 3)
+		if nl := s.leader(); nl != nil && nl.id != l.id {
+			s.propose(nl, "wsm2", 1)
+			s.round(false)
+			s.round(false)
+			s.flag("witness-stale-match-deposed")
+		}
+		// phase 3: healed, everybody converges, l is a follower again
+		s.blocked = map[[2]uint64]bool{}
+		for i := 0; i < 3; i++ {
+			s.round(false)
+		}
+		// phase 4: l is elected again; afterwards it only reaches one voter
+		for i := 0; i < int(s.opts.electionRTT)+1; i++ {
+			for _, x := range s.runningReps() {
+				if x.id != l.id {
+					s.tick(x)
+				}
+			}
+		}
+		if cur := s.leader(); cur != nil && cur.id != l.id {
+			s.isolateBoth(cur.id)
+		}
+		s.campaignNow(l, 3)
+		if l.running() && l.raft().state == leader {
+			s.flag("witness-stale-match-reelected")
+			v := others[(a.B+1)%len(others)]
+			cutOff(l, v)
+			s.propose(l, "wsm3", 1)
+			for i := 0; i < 3; i++ {
+				s.step(l, 0)
+				s.deliverBetween(l.id, v.id)
+				s.step(v, 0)
+				s.deliverBetween(l.id, v.id)
+			}
+			s.step(l, 0)
+		}
+		s.blocked = map[[2]uint64]bool{}
+		for i := 0; i < 1+a.C%3; i++ {
+			s.round(a.C%2 == 1)
+		}
 	case aTransferToRemoved:
 		// leadership is handed to a voter whose removal is committed but not yet applied
 		// by the leader; the TimeoutNow reaches the target after it applied its own removal
@@ -841,6 +956,7 @@ func (s *sim) doAction(a simAction) {
 		var rest []simMsg
 		for _, m := range s.net {
 			if m.m.From == x.id && m.m.To == v.id {
+				s.checkNotMutated(m)
 				s.deliverMsg(m.m)
 			} else {
 				rest = append(rest, m)
